@@ -23,6 +23,8 @@ type LoginOpts struct {
 	Spec      msg.ClientSpec
 	Metas     map[string]string
 	CryptoToken string // token for the control channel cipher (defaults to Token)
+	Plain     bool   // internal listener: control channel is not encrypted
+	Hostname  string
 }
 
 type Peer struct {
@@ -58,7 +60,7 @@ func LoginOn(conn net.Conn, addr string, o LoginOpts) (*Peer, *msg.LoginResp, er
 	if o.Key != nil {
 		key = *o.Key
 	}
-	lm := &msg.Login{Version: "0.61.1", User: o.User, PrivilegeKey: key, Timestamp: ts, RunID: o.RunID, PoolCount: o.PoolCount, ClientSpec: o.Spec, Metas: o.Metas, Os: "linux", Arch: "amd64"}
+	lm := &msg.Login{Version: "0.61.1", Hostname: o.Hostname, User: o.User, PrivilegeKey: key, Timestamp: ts, RunID: o.RunID, PoolCount: o.PoolCount, ClientSpec: o.Spec, Metas: o.Metas, Os: "linux", Arch: "amd64"}
 	if err := msg.WriteMsg(conn, lm); err != nil {
 		conn.Close()
 		return nil, nil, err
@@ -78,10 +80,14 @@ func LoginOn(conn net.Conn, addr string, o LoginOpts) (*Peer, *msg.LoginResp, er
 	if ct == "" {
 		ct = o.Token
 	}
-	rw, err := netpkg.NewCryptoReadWriter(conn, []byte(ct))
-	if err != nil {
-		conn.Close()
-		return nil, &resp, err
+	var rw io.ReadWriter = conn
+	if !o.Plain {
+		var err error
+		rw, err = netpkg.NewCryptoReadWriter(conn, []byte(ct))
+		if err != nil {
+			conn.Close()
+			return nil, &resp, err
+		}
 	}
 	p := &Peer{Conn: conn, rw: rw, RunID: resp.RunID, Addr: addr, Token: o.Token}
 	p.cond = sync.NewCond(&p.mu)
